@@ -304,8 +304,8 @@ func init() {
 			w["class_change"] = 0
 			rc.World, rc.Ops = GenerateRun(seed, GenOptions{Sparse: r.IntN(3) == 0, IngressKeys: []string{"path-type", "balance-algorithm", "maxconn-server", "timeout-server"},
 				ValueOverrides: map[string][]string{"path-type": {"begin", "prefix", "exact"}},
-				GlobalKeys: []string{"ssl-redirect", "drain-support", "timeout-client", "max-connections", "path-type-order"},
-				Hosts:      []string{"app.local", "api.local", "web.local", ""}, MinOps: mn, MaxOps: mx, QuiesceEvery: pickInt(r, 2, 4), KeysPerRun: 3, W: w, NoForeignClass: true})
+				GlobalKeys:     []string{"ssl-redirect", "drain-support", "timeout-client", "max-connections", "path-type-order"},
+				Hosts:          []string{"app.local", "api.local", "web.local", ""}, MinOps: mn, MaxOps: mx, QuiesceEvery: pickInt(r, 2, 4), KeysPerRun: 3, W: w, NoForeignClass: true})
 			return rc
 		}})
 
@@ -324,6 +324,55 @@ func init() {
 				GlobalKeys: []string{"ssl-redirect", "drain-support", "path-type-order"}, Hosts: []string{"app.local", "api.local", ""},
 				Paths: []string{"/", "/app", "/app/", "/app/sub", "/App"}, NoOps: true, KeysPerRun: 2, NoForeignClass: true,
 				IgnoreAvoid: []string{"no_dup_paths"}, MaxIngresses: 5})
+			return rc
+		}})
+
+	// ---------------- C08: only ingresses classified for this controller are configured
+	register(&Profile{Name: "class", Prop: "C08", Weight: 1,
+		Oracles: OracleSet{Property: "C08", ClassSelect: true},
+		Build: func(seed uint64, tier string) *RunConfig {
+			r := cfgRng(seed)
+			mn, mx := tierOps(tier, 6, 22)
+			ctl := sampleCtl(r)
+			ctl.DefaultService = ""
+			rc := &RunConfig{Property: "C08", Profile: "class", Seed: seed, Ctl: ctl, MapOrder: r.IntN(2) == 0, Lagfree: r.IntN(3) == 0, MidSched: r.IntN(2) == 0}
+			w := map[string]int{"ing_create": 8, "ing_delete": 4, "ing_update": 20, "ing_ann": 4, "class_change": 14, "renotify": 3, "advance": 5, "ep_scale": 3, "global_change": 1}
+			rc.World, rc.Ops = GenerateRun(seed, GenOptions{Sparse: true, OwnHostAlways: true, IngressKeys: []string{"balance-algorithm", "timeout-server", "ssl-redirect"},
+				GlobalKeys: []string{"timeout-client", "max-connections"}, MinOps: mn, MaxOps: mx, QuiesceEvery: pickInt(r, 2, 4), KeysPerRun: 2, W: w})
+			return rc
+		}})
+
+	// ---------------- C15: each TLS host is served with the certificate its ingress declares
+	register(&Profile{Name: "tls", Prop: "C15", Weight: 1,
+		Oracles: OracleSet{Property: "C15", TLSCerts: true},
+		Build: func(seed uint64, tier string) *RunConfig {
+			r := cfgRng(seed)
+			mn, mx := tierOps(tier, 6, 22)
+			ctl := sampleCtl(r)
+			rc := &RunConfig{Property: "C15", Profile: "tls", Seed: seed, Ctl: ctl, MapOrder: r.IntN(2) == 0, Lagfree: r.IntN(3) == 0, MidSched: r.IntN(2) == 0}
+			w := map[string]int{"ing_create": 8, "ing_delete": 5, "ing_update": 16, "secret_rotate": 14, "secret_delete": 6, "secret_create": 8, "secret_break": 3,
+				"class_change": 2, "renotify": 3, "advance": 5, "global_change": 2, "ep_scale": 2}
+			rc.World, rc.Ops = GenerateRun(seed, GenOptions{Sparse: r.IntN(2) == 0, IngressKeys: []string{"balance-algorithm", "timeout-server", "hsts"},
+				GlobalKeys: []string{"timeout-client", "cross-namespace-secrets-crt"}, MinOps: mn, MaxOps: mx, QuiesceEvery: pickInt(r, 2, 4), KeysPerRun: 2, W: w, NoForeignClass: r.IntN(2) == 0})
+			return rc
+		}})
+
+	// ---------------- C18: external authentication fails closed
+	register(&Profile{Name: "auth", Prop: "C18", Weight: 1,
+		Oracles: OracleSet{Property: "C18", ExtAuth: true},
+		Build: func(seed uint64, tier string) *RunConfig {
+			r := cfgRng(seed)
+			mn, mx := tierOps(tier, 6, 22)
+			ctl := sampleCtl(r)
+			rc := &RunConfig{Property: "C18", Profile: "auth", Seed: seed, Ctl: ctl, MapOrder: r.IntN(2) == 0, Lagfree: r.IntN(3) == 0, MidSched: r.IntN(2) == 0}
+			w := map[string]int{"ing_create": 8, "ing_delete": 6, "ing_update": 12, "ing_ann": 18, "global_change": 4, "svc_delete": 2, "svc_create": 3, "ep_scale": 4, "renotify": 2, "advance": 4}
+			initial := map[string]string{"external-has-lua": []string{"true", "true", "true", "false"}[r.IntN(4)]}
+			if r.IntN(4) != 0 {
+				initial["auth-proxy"] = []string{"_front__auth:14415-14415", "_front__auth:14415-14416", "_front__auth:14415-14419"}[r.IntN(3)]
+			}
+			rc.World, rc.Ops = GenerateRun(seed, GenOptions{Sparse: r.IntN(2) == 0, IngressKeys: []string{"auth-url", "oauth", "auth-external-placement", "balance-algorithm"},
+				GlobalKeys: []string{"auth-proxy", "external-has-lua", "timeout-client"}, InitialGlobal: initial, AnnChance: 2,
+				Hosts: []string{"app.local", "api.local", "web.local"}, MinOps: mn, MaxOps: mx, QuiesceEvery: pickInt(r, 2, 4), KeysPerRun: 4, W: w, NoForeignClass: true})
 			return rc
 		}})
 
